@@ -433,6 +433,8 @@ class Prop:
             "custom validators, a two-alternative Union, default methods and factories, property "
             "getters/setters, cached observed property, List/Dict/Set item validators at the k-th "
             "item, stand-alone TraitList, Supports with a two-factory adapter chain, delegation, "
+            "quiet assignments (trait_setq / trait_set(trait_change_notify=False)), a "
+            "PrototypedFrom attribute validated by its prototype's trait (assignment, deletion), "
             "observed child links, an attribute kept equal on two objects by sync_trait(mutual) "
             "whose partner-side validation fails inside the library's own propagation handler "
             "(nested deciding callback: partner untouched, outer op complete, pair realigned by "
